@@ -245,24 +245,30 @@ func (g *c09Gen) next() c09Case {
 	g.nvar = 0
 	if g.r.Intn(12) == 0 {
 		res := []string{"R", "Q"}[g.r.Intn(2)]
-		ts := []string{"@R", "@Q", "@{RI}", "@{RJ}", "@{RI, RJ}", "@AnyResource", "@R?", "@AnyResource?", "@{RI}?", "@[R]", "@{String: R}"}
-		c := c09Case{Value: c09Value{Expr: "create " + res + "()", T0: res, Kind: "resource", Depth: 0}, Target: ts[g.r.Intn(len(ts))], Resource: true}
-		if g.r.Intn(3) == 0 {
-			c.Opt = 1
-		}
+		ts := []string{"@R", "@Q", "@{RI}", "@{RJ}", "@{RI, RJ}", "@AnyResource", "@AnyResource", "@R", "@{RI}", "@[R]", "@{String: R}"}
+		t := ts[g.r.Intn(len(ts))] + strings.Repeat("?", []int{0, 0, 1, 1, 2, 3}[g.r.Intn(6)])
+		c := c09Case{Value: c09Value{Expr: "create " + res + "()", T0: res, Kind: "resource", Depth: 0}, Target: t, Resource: true}
+		c.Opt = []int{0, 0, 1, 1, 2, 2, 3}[g.r.Intn(7)]
 		return c
 	}
 	v := g.value(0)
 	c := c09Case{Value: v, Target: g.target(v)}
-	switch k := g.r.Intn(10); {
+	switch k := g.r.Intn(12); {
 	case k < 6:
 	case k < 8:
 		c.Opt = 1
-	case k < 9:
+	case k < 10:
 		c.Opt = 2
+	case k < 11:
+		c.Opt = 3
 	default:
 		c.Nil = true
 		c.Opt = 1
+	}
+	// optional values are paired more often with optional targets of AnyStruct / of the value's own type (depth 0..3)
+	if c.Opt > 0 && !c.Nil && g.r.Intn(2) == 0 {
+		base := []string{"AnyStruct", "AnyStruct", parenT(v.T0), "HashableStruct"}[g.r.Intn(4)]
+		c.Target = base + strings.Repeat("?", g.r.Intn(4))
 	}
 	return c
 }
@@ -275,20 +281,17 @@ func (c c09Case) script() string {
 	if c.Resource {
 		T := c.Target
 		mk := func() string {
-			if c.Opt > 0 {
-				return "let v: @AnyResource? <- " + c.Value.Expr + "\n"
-			}
-			return "let v: @AnyResource <- " + c.Value.Expr + "\n"
+			return "let v: @AnyResource" + strings.Repeat("?", c.Opt) + " <- " + c.Value.Expr + "\n"
 		}
 		sb.WriteString("  " + mk())
-		fmt.Fprintf(&sb, "  log(v.isInstance(Type<%s>()))\n  log(v.getType().isSubtype(of: Type<%s>()))\n", T, T)
+		fmt.Fprintf(&sb, "  log(v.isInstance(Type<%s>()))\n  log(v.getType().isSubtype(of: Type<%s>()))\n  log(v.getType())\n", T, T)
 		if c.Opt > 0 {
 			sb.WriteString("  let inner <- " + c.Value.Expr + "\n")
-			fmt.Fprintf(&sb, "  log(inner.getType().isSubtype(of: Type<%s>()))\n  destroy inner\n", T)
+			fmt.Fprintf(&sb, "  log(inner.getType().isSubtype(of: Type<%s>()))\n  log(inner.getType())\n  destroy inner\n", T)
 		}
-		fmt.Fprintf(&sb, "  if let x <- v as? %s { log(true); destroy x } else { log(false); destroy v }\n", T)
+		fmt.Fprintf(&sb, "  if let x <- v as? %s { log(true); log(x.getType()); destroy x } else { log(false); destroy v }\n", T)
 		sb.WriteString("  " + strings.Replace(mk(), "let v", "let w", 1))
-		fmt.Fprintf(&sb, "  let y <- w as! %s\n  log(\"forced\")\n  destroy y\n}\n", T)
+		fmt.Fprintf(&sb, "  let y <- w as! %s\n  log(y.getType())\n  log(\"forced\")\n  destroy y\n}\n", T)
 		return sb.String()
 	}
 	if c.Value.Acct {
@@ -311,6 +314,8 @@ func (c c09Case) script() string {
 		fmt.Fprintf(&sb, "  let v: AnyStruct = (%s as %s?)\n", c.Value.Expr, T0)
 	case c.Opt == 2:
 		fmt.Fprintf(&sb, "  let v: AnyStruct = ((%s as %s?) as %s??)\n", c.Value.Expr, T0, T0)
+	case c.Opt == 3:
+		fmt.Fprintf(&sb, "  let v: AnyStruct = (((%s as %s?) as %s??) as %s???)\n", c.Value.Expr, T0, T0, T0)
 	default:
 		fmt.Fprintf(&sb, "  let v: AnyStruct = %s\n", c.Value.Expr)
 	}
@@ -329,7 +334,7 @@ func (c c09Case) script() string {
 		// resources are destroyed before the force cast may abort; references to them are not used afterwards
 		_ = d
 	}
-	fmt.Fprintf(&sb, "  let forced = v as! %s\n  log(\"forced\")\n", T)
+	fmt.Fprintf(&sb, "  let forced = v as! %s\n  log(forced.getType())\n  log(\"forced\")\n", T)
 	for _, d := range destroys {
 		sb.WriteString("  destroy " + d + "\n")
 	}
@@ -344,7 +349,8 @@ type c09Obs struct {
 	Same    string // "" (not evaluated) | "true" | "false": log(v) == log(casted)
 	// run-time types (as logged) of v, of the cast result and of the unwrapped inner value
 	VType, BackType, InnerType string
-	Forced                     bool // the force cast did not abort
+	ForcedType                 string // run-time type of the `as!` result
+	Forced                     bool   // the force cast did not abort
 	AbortRoot                  string
 	Raw                        []string
 	Class                      string
@@ -369,11 +375,14 @@ func c09Observe(c c09Case, e host.Engine) c09Obs {
 		return x
 	}
 	if c.Resource {
-		o.I, o.S = take(), take()
+		o.I, o.S, o.VType = take(), take(), stripAuth(take())
 		if c.Opt > 0 {
-			o.SInner = take()
+			o.SInner, o.InnerType = take(), stripAuth(take())
 		}
 		o.C = take()
+		if o.C == "true" {
+			o.BackType = stripAuth(take())
+		}
 	} else {
 		o.C, o.I, o.S = take(), take(), take()
 		if c.Opt > 0 && !c.Nil {
@@ -391,12 +400,85 @@ func c09Observe(c c09Case, e host.Engine) c09Obs {
 		}
 	}
 	o.Forced = len(logs) > 0 && logs[len(logs)-1] == `"forced"`
+	if o.Forced && len(logs) >= 2 {
+		o.ForcedType = stripAuth(logs[len(logs)-2])
+	}
 	return o
 }
 
 var authRe = regexp.MustCompile(`auth\([^)]*\) `)
 
 func stripAuth(s string) string { return authRe.ReplaceAllString(s, "") }
+
+// typeDepth splits a logged run-time type `Type<X??>()` into its base and its optional depth.
+func typeDepth(logged string) (base string, depth int) {
+	t := strings.TrimSuffix(strings.TrimPrefix(logged, "Type<"), ">()")
+	for strings.HasSuffix(t, "?") {
+		t = strings.TrimSuffix(t, "?")
+		depth++
+	}
+	return strings.TrimSuffix(strings.TrimPrefix(t, "("), ")"), depth
+}
+
+// targetDepth is the optional depth of a target type annotation, or -1 when the annotation's optionality is ambiguous
+// to this harness (unparenthesised reference types: `&Int?`).
+func targetDepth(target string) int {
+	t := strings.TrimPrefix(target, "@")
+	d := 0
+	for strings.HasSuffix(t, "?") {
+		t = strings.TrimSuffix(t, "?")
+		d++
+	}
+	if d > 0 && (strings.HasPrefix(t, "&") || strings.HasPrefix(t, "auth(")) {
+		return -1
+	}
+	return d
+}
+
+// expectedResultType is the statement's clause "a successful cast yields the original value", with the two documented
+// adjustments: optionals are unwrapped first unless the target is (an optional of) AnyStruct/AnyResource, and the result is
+// boxed up to the optional depth of the target type. ok=false: no expectation (ambiguous target).
+func expectedResultType(c c09Case, o c09Obs) (base string, depth int, ok bool) {
+	m := targetDepth(c.Target)
+	// reference-rooted values: getType() looks through the reference (finding FF5), so the logged types are not comparable
+	if m < 0 || c.Nil || c.Value.Kind == "reference" {
+		return "", 0, false
+	}
+	vb, vd := typeDepth(o.VType)
+	if c.Opt == 0 || targetKeepsOptionals(c.Target) {
+		if vd < m {
+			vd = m
+		}
+		return vb, vd, true
+	}
+	ib, id := typeDepth(o.InnerType)
+	if id < m {
+		id = m
+	}
+	return ib, id, true
+}
+
+// resultTypeMsg compares the run-time types of the `as?` and `as!` results with the expectation.
+func resultTypeMsg(c c09Case, o c09Obs) string {
+	if o.C != "true" {
+		return ""
+	}
+	eb, ed, ok := expectedResultType(c, o)
+	if !ok {
+		return ""
+	}
+	for _, r := range []struct{ op, t string }{{"as?", o.BackType}, {"as!", o.ForcedType}} {
+		if r.t == "" {
+			continue
+		}
+		b, d := typeDepth(r.t)
+		if b != eb || d != ed {
+			return fmt.Sprintf("`%s %s` of a value with run-time type %s (optional depth %d) yields run-time type %s, want %s with optional depth %d",
+				r.op, c.Target, o.VType, c.Opt, r.t, eb, ed)
+		}
+	}
+	return ""
+}
 
 func targetKeepsOptionals(t string) bool {
 	u := strings.TrimRight(strings.TrimPrefix(t, "@"), "?")
@@ -448,8 +530,8 @@ func c09Judge(c c09Case, o c09Obs) (string, string) {
 		if o.Same == "false" {
 			return fmt.Sprintf("successful cast changed the value: %q", o.Raw), ""
 		}
-		if o.C == "true" && !c.Resource && !strings.HasSuffix(c.Target, "?") && o.VType != o.BackType {
-			return fmt.Sprintf("successful cast changed the run-time type: %s -> %s", o.VType, o.BackType), ""
+		if m := resultTypeMsg(c, o); m != "" {
+			return m, ""
 		}
 		return "", ""
 	}
@@ -459,16 +541,13 @@ func c09Judge(c c09Case, o c09Obs) (string, string) {
 		if o.C != o.S {
 			return fmt.Sprintf("optional value, target %s keeps optionals: as?=%s but run-time subtype=%s", c.Target, o.C, o.S), ""
 		}
-		if o.C == "true" && !c.Resource && !strings.HasSuffix(c.Target, "?") && o.BackType != o.VType {
-			return fmt.Sprintf("target %s keeps optionals but the cast result has run-time type %s, the value %s", c.Target, o.BackType, o.VType), ""
-		}
 	default:
 		if o.C != o.SInner {
 			return fmt.Sprintf("optional value is unwrapped before the cast: as?=%s but unwrapped value's run-time subtype=%s", o.C, o.SInner), refRoot
 		}
-		if o.C == "true" && !c.Resource && !strings.HasSuffix(c.Target, "?") && o.BackType != o.InnerType {
-			return fmt.Sprintf("cast of an optional value to %s yields run-time type %s, the unwrapped value has %s", c.Target, o.BackType, o.InnerType), ""
-		}
+	}
+	if m := resultTypeMsg(c, o); m != "" {
+		return m, ""
 	}
 	return "", ""
 }
@@ -487,9 +566,9 @@ func c09Accepted(c c09Case) bool {
 func TestC09(t *testing.T) {
 	rec := evid.Start(t, "C09",
 		"one script per (value, target): value expressions (numbers, strings, paths, types, enums, structs with conformances, functions, ranges, arrays/dictionaries "+
-			"with weakened element types, ephemeral references with authorizations incl. to resources, capabilities; wrapped in 0-2 optionals or nil; plus resource values) "+
+			"with weakened element types, ephemeral references with authorizations incl. to resources, capabilities; wrapped in 0-3 optionals or nil; plus resource values in 0-3 optionals) "+
 			"held in an AnyStruct/AnyResource variable x target types (related-biased pool + optional wrappers); only checker-accepted scripts run; per engine: "+
-			"c=(v as? T)!=nil, i=v.isInstance, s=getType().isSubtype, f=as! aborts, e=log(v)==log(cast); rules: f=!c always; non-optional: c=i=s and e; optional: c=s(unwrapped) unless "+
+			"c=(v as? T)!=nil, i=v.isInstance, s=getType().isSubtype, f=as! aborts, e=log(v)==log(cast), run-time types of v / unwrapped v / as? result / as! result; rules: result type = original (unwrapped unless target is AnyStruct/AnyResource(?)*) boxed to the target's optional depth; f=!c always; non-optional: c=i=s and e; optional: c=s(unwrapped) unless "+
 			"target is AnyStruct/AnyResource(?)* or v is nil (then c=s); both engines must report identical tuples. Non-trivial: value or target depth>=2 or involves a reference/intersection; "+
 			"distinct by (value type, optional depth, target).")
 	replaying := evid.ReplayFile() != ""
@@ -519,7 +598,7 @@ func TestC09(t *testing.T) {
 		if mi != "" || mv != "" {
 			rec.Excluded(fi + fv[len(fv)*btoi(fi != ""):])
 		}
-		if oi.C != ov.C || oi.I != ov.I || oi.S != ov.S || oi.SInner != ov.SInner || oi.Forced != ov.Forced || oi.Same != ov.Same || oi.BackType != ov.BackType {
+		if oi.C != ov.C || oi.I != ov.I || oi.S != ov.S || oi.SInner != ov.SInner || oi.Forced != ov.Forced || oi.Same != ov.Same || oi.BackType != ov.BackType || oi.ForcedType != ov.ForcedType {
 			return fmt.Sprintf("engines disagree: interpreter %+v vs vm %+v", oi, ov), nontrivial
 		}
 		return "", nontrivial
@@ -562,6 +641,6 @@ func TestC09(t *testing.T) {
 		rec.Inconclusive(t, "checker accepts only %.0f%% of the generated cast scripts", rate*100)
 	}
 	rec.RequireClasses(t, "value:reference", "value:array", "value:dictionary", "value:capability", "value:resource", "value:composite",
-		"optional-depth:1", "optional-depth:2", "cast-succeeds:true", "cast-succeeds:false")
+		"optional-depth:1", "optional-depth:2", "optional-depth:3", "cast-succeeds:true", "cast-succeeds:false")
 	_ = prog.Script
 }
